@@ -329,7 +329,7 @@ def io_cases(seed, n, kinds=None):
         auto = r.random() < 0.7
         g.ids = 1
         n0 = r.choice([1, 2, 3, 5, 8])
-        if kinds[i % len(kinds)] in ("update_shrink", "remove_most", "remove_some"):
+        if kinds[i % len(kinds)] in ("update_shrink", "remove_most", "remove_some", "rewrite_line_separators", "rewrite_twice_linebreaks"):
             auto, n0 = True, max(n0, 3)          # the index must answer the query: storage-level shortcuts hang off that path
         big = kinds[i % len(kinds)] in ("update_newest_big", "insert_after_failed_update_big")
         if big:
@@ -361,7 +361,20 @@ def io_cases(seed, n, kinds=None):
         elif i % 4 == 3:
             hist.append(("remove", ("S", "tags", [("k", "id")], ("cmp", "==", ("s", "nope"))), None))
             hist.append(("insert", [g.point()], None))
-        if kind == "insert":
+        if kind in ("rewrite_line_separators", "rewrite_twice_linebreaks"):
+            # the rows a rewrite passes through UNCHANGED hold the characters str.splitlines() breaks at but the csv module does not (VT, FF, FS, GS, RS,
+            # NEL, U+2028, U+2029), resp. CR / CRLF / LF inside cells; the second kind rewrites TWICE in one session (the second rewrite reads through
+            # the handle the first one reopened)
+            seps = ["\x0b", "\x0c", "\x1c", "\x1d", "\x1e", "\x85", "\u2028", "\u2029"] if kind == "rewrite_line_separators" else ["\r", "\r\n", "\n", "\r\r\n"]
+            for q_, p_ in enumerate(pts):
+                p_["tags"]["note"] = "east" + seps[(i + q_) % len(seps)] + "wing" + seps[(i + 2 * q_ + 1) % len(seps)]
+            hist = [("insert", pts, None, "multiple")]
+            last = ("S", "fields", [("k", "n")], ("cmp", "==", ("n", ns[-1] if ns else 1)))
+            if kind == "rewrite_twice_linebreaks":
+                hist.append(("update", last, {"fields": ("static", {"seen": 1})}, None))
+            first = ("S", "fields", [("k", "n")], ("cmp", "==", ("n", ns[0] if ns else 1)))          # the rows AFTER the named one pass through unchanged
+            op = ("remove", first, None) if i % 2 else ("update", first, {"tags": ("static", {"hit": "1"})}, None)
+        elif kind == "insert":
             op = ("insert", [g.point()], r.choice([None, "m1"]))
         elif kind == "insert_multiple":
             op = ("insert", [g.point() for _ in range(r.choice([2, 3]))], None, "multiple")
